@@ -157,6 +157,12 @@ def cases(tier):
     for pi in range(len(progs)):
         for kind in ("equal", "moved", "reordered", "mappable"):
             out.append(("reg", pi, kind))
+    # the device's maximum sequence duration swept through the last nanoseconds of each program AS IT PLAYS ON THE NEW DEVICE (automatic
+    # waits are re-rounded there): a non-strict switch raises or returns a sequence inside the limit
+    for v in ("min_dur=32", "clock=8", "pjt=42", "fixed_rt=10", "eom-buffer=40"):
+        for pi in range(len(progs)):
+            if len(progs[pi]) >= 2:
+                out.append(("maxseq", v, pi))
     for ai in range(len(AUX)):
         for v in names:
             for strict in (True, False):
@@ -192,6 +198,31 @@ def run_case(case):
         if "p" not in _PROGS:
             _PROGS["p"] = programs("quick")
         progs = _PROGS["p"]
+        if case[0] == "maxseq":
+            _, v, pi = case
+            ops = progs[pi]
+            ws = World(spec_of(()))
+            try:
+                seq = ws.fresh()
+                for op in ops:
+                    apply(seq, op, ws)
+                T = seq.switch_device(World(spec_of((v,))).device, strict=False).get_duration()
+            except Exception:
+                return [("@program-invalid-on-source", "")]
+            out = []
+            for m in range(max(T - 14, 1), T + 3):
+                sp = spec_of((v,))
+                sp["max_seq"] = m
+                try:
+                    new = seq.switch_device(World(sp).device, strict=False)
+                except Exception:
+                    if m >= T:
+                        out.append((f"C18:non-strict-switch-refused-although-the-program-fits:{v}", f"program {pi}: lasts {T} on the new device, refused with max_sequence_duration {m}"))
+                    continue
+                ends = max((sl.tf for c in snapshot.snap(new, False).channels.values() for sl in c.slots), default=0)
+                if ends > m:
+                    out.append((f"C18:non-strict-switch-over-max-duration:swept:{v}", f"program {pi}: returned a sequence lasting {ends} ns on a device whose max_sequence_duration is {m}"))
+            return out + [("@maxseq-swept", "")]
         if case[0] == "dev":
             _, src, dst, pi, strict = case
             prefix, ops = (None, progs[pi]) if pi >= 0 else AUX[-1 - pi]
@@ -419,7 +450,7 @@ def run(tier, seed):
                 classes[fp] = classes.get(fp, 0) + 1
             else:
                 res.add(Violation(fp, d, {"engine": "progx", "case": [list(x) if isinstance(x, tuple) else x for x in c]}))
-    returned = classes.get("@strict-returned", 0) + classes.get("@loose-returned", 0) + classes.get("@register-switched", 0)
+    returned = classes.get("@strict-returned", 0) + classes.get("@loose-returned", 0) + classes.get("@register-switched", 0) + classes.get("@maxseq-swept", 0)
     res.coverage = dict(
         evaluations=len(cs), distinct_nontrivial=returned, exhaustive=True, outcome_classes=classes,
         rule="programs = every history of <= 2 ops over a 12-op alphabet (pulses with phase changes, all protocols, fall-time delay, "
